@@ -183,7 +183,7 @@ def s_history(draw, tier=None):
 
 
 FACETS = [
-    Facet("histories", check, strategy=s_history, quick=400, thorough=20000,
+    Facet("histories", check, strategy=s_history, quick=640, shards_quick=16, thorough=20000,
           rule="1-3 scenarios x 2-3 precisions from 1..12 x up to 5 writer objects (XML / protobuf); 3-13 operations "
                "new / write_to_file / write_scenario_to_file / overwrite ALWAYS / SKIP onto arbitrary bytes; "
                "non-trivial = a writer is used twice, or a writer writes after another writer with a different "
